@@ -35,12 +35,16 @@ def canon_fields(prog, locs, hidx, b):
             seg = a.segs[1]
             o = seg.off if seg.off is not None else (seg.rng[0] if seg.rng else None)
             nm = None
+            best = None
             for name, (off, size) in b.fields.items():
-                if o is not None and off <= o < off + size:
-                    nm = name
+                if o is not None and off <= o < off + size and (best is None or size < best):
+                    nm, best = name, size       # the innermost field containing the byte
             if nm in ("kt", "ks") and o is not None:
                 p = prog.describe(b.ctxty, o)
                 p = [x for x in p if not x.startswith("[") and not x.startswith("<")]
+                real = getattr(b, "field_names", {}).get("kt", "kt").split(".")
+                if p[:len(real)] == real:
+                    p = ["kt"] + p[len(real):]      # the schedule member by role, whatever it is called
                 nm = ".".join(p[:3]) if p else nm
                 nm = nm.replace("kt.ks.", "ks.").replace("kt.tweak", "tweak")
             out.add("ctx." + (nm or "?"))
@@ -64,6 +68,8 @@ def canon_guards(prog, s, cs, hidx, b):
     for fct in (cs.guards or ()):
         if local(fct[1]) or local(fct[2]):
             continue        # facts about this back end's own allocation are not part of the interface
+        if fct[0] in ("ne", "eq") and fct[2] == ("null",) and fct[1][0] == "p" and len(fct[1][1][1]) >= 2:
+            continue        # "the address of a field inside the context is not NULL": says nothing (and names the field)
         txt = fact_str(fct, s.addr_reg, prog)
         out.add(txt)
     return out
